@@ -186,6 +186,43 @@ Section B.
     - exists a. repeat split; auto. eapply ext_out_ty; eauto.
   Qed.
 
+  (* what survives every call: known types stay, installed converters stay *)
+  Record grow (st st' : gstate) : Prop := {
+    grow_in : forall k t, in_ty st k = Some t -> in_ty st' k = Some t;
+    grow_out : forall k t, out_ty st k = Some t -> out_ty st' k = Some t;
+    grow_hedge : incl (g_hedge st) (g_hedge st')
+  }.
+  Lemma grow_refl : forall st, grow st st.
+  Proof. intro st; constructor; auto. apply incl_refl. Qed.
+  Lemma grow_trans : forall a b c, grow a b -> grow b c -> grow a c.
+  Proof.
+    intros a b c [i1 o1 h1] [i2 o2 h2]; constructor; auto. eapply incl_tran; eauto.
+  Qed.
+  Lemma ext_grow : forall st st', ext st st' -> grow st st'.
+  Proof.
+    intros st st' E; constructor.
+    - intros k t; apply ext_in_ty; exact E.
+    - intros k t; apply ext_out_ty; exact E.
+    - apply (ext_hedge _ _ E).
+  Qed.
+  Lemma same_nodes_grow : forall st st',
+    g_in st' = g_in st -> g_out st' = g_out st -> g_nodes st' = g_nodes st -> g_hedge st' = g_hedge st ->
+    grow st st'.
+  Proof.
+    intros st st' A B C D. constructor.
+    - intros k t. unfold in_ty, get_node. rewrite A, B, C. auto.
+    - intros k t. unfold out_ty, get_node. rewrite A, B, C. auto.
+    - rewrite D. apply incl_refl.
+  Qed.
+  Lemma grow_conn_ok : forall st st' p, grow st st' -> conn_ok st p -> conn_ok st' p.
+  Proof.
+    intros st st' p G [a [b [Ha [Hb [Hc Hm]]]]]. exists a, b. repeat split.
+    - apply (grow_out _ _ G); exact Ha.
+    - apply (grow_in _ _ G); exact Hb.
+    - exact Hc.
+    - intro M. apply (grow_hedge _ _ G). auto.
+  Qed.
+
   (* ---- the elementary state changes *)
 
   Lemma ext_set_tvm : forall st t, ext st (set_tvm st t).
@@ -583,6 +620,10 @@ Section B.
     inversion H; subst;
     split; [eapply same_core_inv; [apply same_core_set_err | exact I] | apply same_core_ext, same_core_set_err].
 
+  Ltac fail_caseg H I :=
+    inversion H; subst;
+    split; [eapply same_core_inv; [apply same_core_set_err | exact I] | apply ext_grow, same_core_ext, same_core_set_err].
+
   Lemma has_or : forall st k x, negb (has_node st k) && negb (N.eqb k x) = false -> has_node st k = true \/ k = x.
   Proof.
     intros st k x H. apply andb_false_iff in H. destruct H as [H|H]; apply negb_false_iff in H.
@@ -591,24 +632,24 @@ Section B.
   Qed.
 
   Lemma add_edge_spec : forall orc st s e st' ok,
-    inv st -> add_edge u false orc st s e = (st', ok) -> inv st' /\ ext st st'.
+    inv st -> add_edge u false orc st s e = (st', ok) -> inv st' /\ grow st st'.
   Proof.
     intros orc st s e st' ok I H. unfold add_edge in H.
-    destruct (g_err st); [inversion H; subst; split; [exact I | apply ext_refl]|].
-    destruct (g_compiled st) eqn:CP; [inversion H; subst; split; [exact I | apply ext_refl]|].
-    destruct (N.eqb s kEND); [fail_case H I|].
-    destruct (N.eqb e kSTART); [fail_case H I|].
-    destruct (negb (has_node st s) && negb (N.eqb s kSTART)) eqn:Hs; [fail_case H I|].
-    destruct (negb (has_node st e) && negb (N.eqb e kEND)) eqn:He; [fail_case H I|].
-    destruct (mem_pair (s, e) (g_ctrl st)); [fail_case H I|].
+    destruct (g_err st); [inversion H; subst; split; [exact I | apply grow_refl]|].
+    destruct (g_compiled st) eqn:CP; [inversion H; subst; split; [exact I | apply grow_refl]|].
+    destruct (N.eqb s kEND); [fail_caseg H I|].
+    destruct (N.eqb e kSTART); [fail_caseg H I|].
+    destruct (negb (has_node st s) && negb (N.eqb s kSTART)) eqn:Hs; [fail_caseg H I|].
+    destruct (negb (has_node st e) && negb (N.eqb e kEND)) eqn:He; [fail_caseg H I|].
+    destruct (mem_pair (s, e) (g_ctrl st)); [fail_caseg H I|].
     apply has_or in Hs. apply has_or in He.
     set (st1 := mark_ends (set_ctrl st (g_ctrl st ++ [(s, e)])) s e) in *.
-    destruct (mem_pair (s, e) (g_data st1)); [fail_case H I|].
+    destruct (mem_pair (s, e) (g_data st1)); [fail_caseg H I|].
     assert (SC : same_core st st1) by (unfold same_core, st1; simpl; repeat split; reflexivity).
     pose proof (same_core_inv _ _ SC I) as I1.
     set (st1' := set_tvm st1 (g_tvm st1 ++ [(s, e)])) in *.
     unfold update_sel in H.
-    destruct (update_tvm u (orc 0%nat) st1') as [st2| |] eqn:U; [|fail_case H I|fail_case H I].
+    destruct (update_tvm u (orc 0%nat) st1') as [st2| |] eqn:U; [|fail_caseg H I|fail_caseg H I].
     inversion H; subst st' ok; clear H.
     assert (X1 : ext st st1') by (eapply ext_trans; [apply same_core_ext; exact SC | apply ext_set_tvm]).
     assert (G1 : good st1').
@@ -622,10 +663,260 @@ Section B.
     destruct (update_tvm_spec _ _ _ G1 U) as [X2 [G2 [IN2 [PO2 _]]]].
     assert (X : ext st st2) by (eapply ext_trans; eauto).
     set (st3 := set_data st2 (g_data st2 ++ [(s, e)])).
-    assert (SC3 : ext st2 st3).
-    { constructor; auto.
-      - unfold st3; simpl.
-        (* data grows: not an equality; handled below *)
-        admit_placeholder.
-      - intros k n Hn; exists n; repeat split; auto.
-      - apply incl_refl. }
+    assert (PE : forall p, pend_ok st p -> pend_ok st2 p).
+    { intros p Hp. apply PO2. eapply ext_pend_ok_same_tvm; [exact X1 | | exact Hp].
+      unfold st1', st1; simpl. apply incl_appl, incl_refl. }
+    split.
+    - constructor.
+      + exact (proj1 G2).
+      + exact (proj2 G2).
+      + intros p Hp. unfold conns in Hp. change (g_data st3) with (g_data st2 ++ [(s, e)]) in Hp.
+        change (branch_pairs st3) with (branch_pairs st2) in Hp.
+        change (pend_ok st2 p /\ ends_ok st2 p).
+        assert (Q : In p (conns st2) \/ p = (s, e)).
+        { apply in_app_or in Hp. destruct Hp as [Hp|Hp].
+          - apply in_app_or in Hp. destruct Hp as [Hp|[Hp|[]]]; [left; apply in_or_app; left; exact Hp | right; auto].
+          - left; apply in_or_app; right; exact Hp. }
+        destruct Q as [Q|Q].
+        * rewrite (conns_ext _ _ X) in Q. destruct (inv_conns _ I p Q) as [A B].
+          split; [apply PE; exact A | eapply ext_ends_ok; eauto].
+        * subst p. split.
+          -- apply PO2. right. unfold st1'; simpl. apply in_or_app; right; left; reflexivity.
+          -- eapply ext_ends_ok; [exact X2|]. apply (proj2 G1). unfold st1'; simpl.
+             apply in_or_app; right; left; reflexivity.
+      + intros s0 b Hb. change (In (s0, b) (g_branches st2)) in Hb. rewrite (ext_branches _ _ X) in Hb.
+        change (branch_ok st2 s0 b). eapply ext_branch_ok; [exact X|]. apply (inv_branches _ I). exact Hb.
+      + change (g_compiled st2 = true -> g_tvm st2 = [] /\ all_typed st2).
+        rewrite (ext_compiled _ _ X), CP. discriminate.
+    - eapply grow_trans; [apply ext_grow; exact X|]. apply same_nodes_grow; reflexivity.
+  Qed.
+
+  (* ---- addBranch *)
+
+  Lemma good_same_core : forall st st', same_core st st' -> good st -> good st'.
+  Proof.
+    intros [i o s n d c b t h hs he er cp] [i' o' s' n' d' c' b' t' h' hs' he' er' cp'].
+    unfold same_core; simpl. intros [A1 [A2 [A3 [A4 [A5 [A6 [A7 A8]]]]]]]; subst.
+    intros [G1 G2]; split; [exact G1 | exact G2].
+  Qed.
+
+  Lemma pend_ok_same_core : forall st st' p, same_core st st' -> pend_ok st p -> pend_ok st' p.
+  Proof.
+    intros [i o s n d c b t h hs he er cp] [i' o' s' n' d' c' b' t' h' hs' he' er' cp'] p.
+    unfold same_core; simpl. intros [A1 [A2 [A3 [A4 [A5 [A6 [A7 A8]]]]]]]; subst.
+    intro H; exact H.
+  Qed.
+
+  Lemma branch_ends_spec : forall ends orc j st s st',
+    good st -> (has_node st s = true \/ s = kSTART) ->
+    branch_ends u false orc j st s ends = Some st' ->
+    ext st st' /\ good st' /\ (forall p, pend_ok st p -> pend_ok st' p) /\
+    (forall e, In e ends -> pend_ok st' (s, e) /\ ends_ok st' (s, e)).
+  Proof.
+    induction ends as [|e rest IH]; intros orc j st s st' G Hs H; simpl in H.
+    - inversion H; subst st'. split; [apply ext_refl|]. split; [exact G|]. split; [auto|]. intros e [].
+    - destruct (negb (has_node st e) && negb (N.eqb e kEND)) eqn:He; [discriminate|].
+      apply has_or in He.
+      set (sta := set_tvm st (g_tvm st ++ [(s, e)])) in *.
+      unfold update_sel in H.
+      destruct (update_tvm u (orc (S j)) sta) as [st1| |] eqn:U; [|discriminate|discriminate].
+      assert (Ga : good sta).
+      { split; [exact (proj1 G)|]. unfold sta; simpl. intros p Hp. apply in_app_or in Hp.
+        destruct Hp as [Hp|[Hp|[]]]; [apply (proj2 G p Hp)|]. subst p. split; simpl; auto. }
+      destruct (update_tvm_spec _ _ _ Ga U) as [X1 [G1 [_ [PO1 _]]]].
+      set (stb := mark_ends st1 s e) in *.
+      assert (SC : same_core st1 stb) by (unfold same_core, stb; simpl; repeat split; reflexivity).
+      pose proof (good_same_core _ _ SC G1) as Gb.
+      assert (Xa : ext st sta) by apply ext_set_tvm.
+      assert (Xb : ext st stb).
+      { eapply ext_trans; [exact Xa|]. eapply ext_trans; [exact X1 | apply same_core_ext; exact SC]. }
+      assert (Hsb : has_node stb s = true \/ s = kSTART).
+      { destruct Hs as [Hs|Hs]; [left; eapply ext_has_node; eauto | right; exact Hs]. }
+      destruct (IH _ _ _ _ _ Gb Hsb H) as [X2 [G2 [PO2 E2]]].
+      assert (POb : forall p, pend_ok sta p -> pend_ok stb p).
+      { intros p Hp. eapply pend_ok_same_core; [exact SC|]. apply PO1; exact Hp. }
+      split; [eapply ext_trans; eauto|]. split; [exact G2|]. split.
+      + intros p Hp. apply PO2, POb. eapply ext_pend_ok_same_tvm; [exact Xa | | exact Hp].
+        unfold sta; simpl. apply incl_appl, incl_refl.
+      + intros e' [E|E].
+        * subst e'. split.
+          -- apply PO2, POb. right. unfold sta; simpl. apply in_or_app; right; left; reflexivity.
+          -- eapply ext_ends_ok; [eapply ext_trans; [exact Xb | exact X2]|]. split; simpl; auto.
+        * apply E2; exact E.
+  Qed.
+
+  Lemma branch_pairs_app : forall st s b,
+    branch_pairs (set_branches st (g_branches st ++ [(s, b)])) = branch_pairs st ++ map (pair s) (b_ends b).
+  Proof.
+    intros st s b. unfold branch_pairs; simpl. rewrite flat_map_app. simpl. rewrite app_nil_r. reflexivity.
+  Qed.
+
+  Lemma add_branch_spec : forall orc st s t ends choice st' ok,
+    inv st -> add_branch u false false orc st s t ends choice = (st', ok) -> inv st' /\ grow st st'.
+  Proof.
+    intros orc st s t ends choice st' ok I H. unfold add_branch in H.
+    destruct (g_err st); [inversion H; subst; split; [exact I | apply grow_refl]|].
+    destruct (g_compiled st) eqn:CP; [inversion H; subst; split; [exact I | apply grow_refl]|].
+    destruct (N.eqb s kEND); [fail_caseg H I|].
+    destruct (negb (has_node st s) && negb (N.eqb s kSTART)) eqn:Hs; [fail_caseg H I|].
+    destruct (Nat.eqb (List.length ends) 1); [fail_caseg H I|].
+    apply has_or in Hs.
+    pose proof (inv_good _ I) as G.
+    set (st1 := if negb (N.eqb s kSTART) && is_pass st s &&
+                   (false || match out_ty st s with None => true | Some _ => false end)
+                then set_pass_ty st s t else st) in *.
+    assert (A1 : ext st st1 /\ good st1).
+    { unfold st1. destruct (negb (N.eqb s kSTART) && is_pass st s &&
+                   (false || match out_ty st s with None => true | Some _ => false end)) eqn:C.
+      - apply andb_true_iff in C. destruct C as [_ C]. simpl in C.
+        destruct (out_ty st s) eqn:O; [discriminate|].
+        pose proof (out_none_in_none st s (proj1 G) O) as Is.
+        split; [apply set_pass_ty_ext; [exact (proj1 G) | exact Is]|].
+        split; [apply set_pass_ty_nodes_ok; [exact (proj1 G) | exact Is]|].
+        intros p Hp. eapply ext_ends_ok; [apply set_pass_ty_ext; [exact (proj1 G) | exact Is]|].
+        apply (proj2 G). exact Hp.
+      - split; [apply ext_refl | exact G]. }
+    destruct A1 as [X1 G1].
+    assert (TV1 : g_tvm st1 = g_tvm st).
+    { unfold st1. destruct (negb (N.eqb s kSTART) && is_pass st s &&
+                   (false || match out_ty st s with None => true | Some _ => false end)); reflexivity. }
+    destruct (out_ty st1 s) as [a|] eqn:Oa; [|rewrite check_none_l in H; fail_caseg H I].
+    destruct (check_assignable u (Some a) (Some t)) eqn:C; [fail_caseg H I| |].
+    - (* Must *)
+      destruct (branch_ends u false orc 0 st1 s (order_keys (orc 0%nat 0%nat) ends)) as [st2|] eqn:BE; [|fail_caseg H I].
+      inversion H; subst st' ok; clear H.
+      assert (Hs1 : has_node st1 s = true \/ s = kSTART).
+      { destruct Hs as [Hs|Hs]; [left; eapply ext_has_node; eauto | right; exact Hs]. }
+      destruct (branch_ends_spec _ _ _ _ _ _ G1 Hs1 BE) as [X2 [G2 [PO2 E2]]].
+      assert (X : ext st st2) by (eapply ext_trans; eauto).
+      set (b := {| b_ty := t; b_ends := ends; b_choice := choice; b_conv := [] |}).
+      split.
+      + constructor.
+        * exact (proj1 G2).
+        * exact (proj2 G2).
+        * intros p Hp. unfold conns in Hp. rewrite branch_pairs_app in Hp.
+          change (g_data (set_branches st2 (g_branches st2 ++ [(s, b)]))) with (g_data st2) in Hp.
+          change (pend_ok st2 p /\ ends_ok st2 p).
+          rewrite app_assoc in Hp. apply in_app_or in Hp. destruct Hp as [Hp|Hp].
+          -- change (In p (conns st2)) in Hp. rewrite (conns_ext _ _ X) in Hp.
+             destruct (inv_conns _ I p Hp) as [A B]. split; [|eapply ext_ends_ok; eauto].
+             apply PO2. eapply ext_pend_ok_same_tvm; [exact X1 | rewrite TV1; apply incl_refl | exact A].
+          -- apply in_map_iff in Hp. destruct Hp as [e [Ep He]]. subst p. simpl in He.
+             apply E2. apply In_order_keys. exact He.
+        * intros s0 b0 Hb. change (In (s0, b0) (g_branches st2 ++ [(s, b)])) in Hb.
+          change (branch_ok st2 s0 b0). apply in_app_or in Hb. destruct Hb as [Hb|[Hb|[]]].
+          -- rewrite (ext_branches _ _ X) in Hb. eapply ext_branch_ok; [exact X|]. apply (inv_branches _ I); exact Hb.
+          -- inversion Hb; subst s0 b0. split.
+             ++ destruct Hs as [Hs|Hs]; [left; eapply ext_has_node; eauto | right; exact Hs].
+             ++ exists a. split; [eapply ext_out_ty; [exact X2 | exact Oa]|]. unfold b; simpl. rewrite C. split; [discriminate | discriminate].
+        * change (g_compiled st2 = true -> g_tvm st2 = [] /\ all_typed st2).
+          rewrite (ext_compiled _ _ X), CP. discriminate.
+      + eapply grow_trans; [apply ext_grow; exact X|]. apply same_nodes_grow; reflexivity.
+    - (* May *)
+      destruct (branch_ends u false orc 0 st1 s (order_keys (orc 0%nat 0%nat) ends)) as [st2|] eqn:BE; [|fail_caseg H I].
+      inversion H; subst st' ok; clear H.
+      assert (Hs1 : has_node st1 s = true \/ s = kSTART).
+      { destruct Hs as [Hs|Hs]; [left; eapply ext_has_node; eauto | right; exact Hs]. }
+      destruct (branch_ends_spec _ _ _ _ _ _ G1 Hs1 BE) as [X2 [G2 [PO2 E2]]].
+      assert (X : ext st st2) by (eapply ext_trans; eauto).
+      set (b := {| b_ty := t; b_ends := ends; b_choice := choice; b_conv := [t] |}).
+      split.
+      + constructor.
+        * exact (proj1 G2).
+        * exact (proj2 G2).
+        * intros p Hp. unfold conns in Hp. rewrite branch_pairs_app in Hp.
+          change (g_data (set_branches st2 (g_branches st2 ++ [(s, b)]))) with (g_data st2) in Hp.
+          change (pend_ok st2 p /\ ends_ok st2 p).
+          rewrite app_assoc in Hp. apply in_app_or in Hp. destruct Hp as [Hp|Hp].
+          -- change (In p (conns st2)) in Hp. rewrite (conns_ext _ _ X) in Hp.
+             destruct (inv_conns _ I p Hp) as [A B]. split; [|eapply ext_ends_ok; eauto].
+             apply PO2. eapply ext_pend_ok_same_tvm; [exact X1 | rewrite TV1; apply incl_refl | exact A].
+          -- apply in_map_iff in Hp. destruct Hp as [e [Ep He]]. subst p. simpl in He.
+             apply E2. apply In_order_keys. exact He.
+        * intros s0 b0 Hb. change (In (s0, b0) (g_branches st2 ++ [(s, b)])) in Hb.
+          change (branch_ok st2 s0 b0). apply in_app_or in Hb. destruct Hb as [Hb|[Hb|[]]].
+          -- rewrite (ext_branches _ _ X) in Hb. eapply ext_branch_ok; [exact X|]. apply (inv_branches _ I); exact Hb.
+          -- inversion Hb; subst s0 b0. split.
+             ++ destruct Hs as [Hs|Hs]; [left; eapply ext_has_node; eauto | right; exact Hs].
+             ++ exists a. split; [eapply ext_out_ty; [exact X2 | exact Oa]|]. unfold b; simpl. rewrite C. split; [discriminate | intros _; left; reflexivity].
+        * change (g_compiled st2 = true -> g_tvm st2 = [] /\ all_typed st2).
+          rewrite (ext_compiled _ _ X), CP. discriminate.
+      + eapply grow_trans; [apply ext_grow; exact X|]. apply same_nodes_grow; reflexivity.
+  Qed.
+
+  (* ---- Compile *)
+
+  Lemma compile_spec : forall st st' ok,
+    inv st -> compile st = (st', ok) ->
+    inv st' /\ grow st st' /\ (ok = true -> g_compiled st' = true).
+  Proof.
+    intros st st' ok I H. unfold compile in H.
+    destruct (g_err st); [inversion H; subst; split; [exact I|split; [apply grow_refl | discriminate]]|].
+    destruct (g_has_start st); simpl in H; [|inversion H; subst; split; [exact I|split; [apply grow_refl | discriminate]]].
+    destruct (g_has_end st); simpl in H; [|inversion H; subst; split; [exact I|split; [apply grow_refl | discriminate]]].
+    destruct (g_tvm st) eqn:T; [|inversion H; subst; split; [exact I|split; [apply grow_refl | discriminate]]].
+    destruct (existsb _ (g_nodes st)) eqn:EX; [inversion H; subst; split; [exact I|split; [apply grow_refl | discriminate]]|].
+    inversion H; subst st' ok; clear H.
+    destruct I as [I1 I2 I3 I4 I5]. split; [|split; [apply same_nodes_grow; reflexivity | reflexivity]].
+    constructor; [exact I1 | exact I2 | exact I3 | exact I4 |].
+    intros _. split; [exact T|].
+    intros k n G. apply nlist_get_In in G.
+    destruct (n_in n) as [t|] eqn:Hn; [eauto|].
+    exfalso. assert (existsb (fun p : key * node => match n_in (snd p) with None => true | Some _ => false end) (g_nodes st) = true).
+    { apply existsb_exists. exists (k, n). split; [exact G|]. simpl. rewrite Hn. reflexivity. }
+    change (g_nodes (set_compiled st)) with (g_nodes st) in G. congruence.
+  Qed.
+
+  (* ---- every call, every sequence, every oracle *)
+
+  Lemma step_spec : forall orc st o st' ok,
+    inv st -> step u orc st o = (st', ok) -> inv st' /\ grow st st'.
+  Proof.
+    intros orc st o st' ok I H. destruct o as [k i ot pre post|k pre post|s e|s t ends choice|]; simpl in H.
+    - destruct (add_node_spec st k false (Some i) (Some ot) pre post st' ok I) as [A B]; auto.
+      + discriminate.
+      + intros _; eauto.
+      + split; [exact A | apply ext_grow; exact B].
+    - destruct (add_node_spec st k true None None pre post st' ok I) as [A B]; auto.
+      + discriminate.
+      + split; [exact A | apply ext_grow; exact B].
+    - eapply add_edge_spec; eauto.
+    - eapply add_branch_spec; eauto.
+    - destruct (compile_spec st st' ok I H) as [A [B _]]. auto.
+  Qed.
+
+  Lemma run_ops_spec : forall ops orcs i st st' oks,
+    inv st -> run_ops u orcs i st ops = (st', oks) -> inv st' /\ grow st st'.
+  Proof.
+    induction ops as [|o rest IH]; intros orcs i st st' oks I H; unfold run_ops in *; simpl in H.
+    - inversion H; subst; split; [exact I | apply grow_refl].
+    - destruct (step_sel u false false (orcs i) st o) as [st1 ok] eqn:Hs.
+      destruct (run_ops_sel u false false orcs (S i) st1 rest) as [st2 oks2] eqn:R.
+      inversion H; subst st' oks; clear H.
+      destruct (step_spec _ _ _ _ _ I Hs) as [I1 G1].
+      destruct (IH _ _ _ _ _ I1 R) as [I2 G2].
+      split; [exact I2 | eapply grow_trans; eauto].
+  Qed.
+
+  Lemma run_ops_app : forall ops1 ops2 orcs i st,
+    run_ops u orcs i st (ops1 ++ ops2) =
+    let '(st1, oks1) := run_ops u orcs i st ops1 in
+    let '(st2, oks2) := run_ops u orcs (i + List.length ops1) st1 ops2 in
+    (st2, oks1 ++ oks2).
+  Proof.
+    induction ops1 as [|o rest IH]; intros ops2 orcs i st; unfold run_ops in *; simpl.
+    - rewrite Nat.add_0_r. destruct (run_ops_sel u false false orcs i st ops2); reflexivity.
+    - destruct (step_sel u false false (orcs i) st o) as [st1 ok].
+      rewrite IH. destruct (run_ops_sel u false false orcs (S i) st1 rest) as [st2 oks2].
+      replace (S i + List.length rest)%nat with (i + S (List.length rest))%nat by lia.
+      destruct (run_ops_sel u false false orcs (i + S (List.length rest)) st2 ops2); reflexivity.
+  Qed.
+
+  (* the graph a successful Compile saw: nothing is pending *)
+  Lemma compiled_all_validated : forall st, inv st -> g_compiled st = true ->
+    forall p, In p (conns st) -> conn_ok st p /\ ends_ok st p.
+  Proof.
+    intros st I C p Hp. destruct (inv_conns _ I p Hp) as [[A|A] B]; [auto|].
+    destruct (inv_compiled _ I C) as [T _]. rewrite T in A. destruct A.
+  Qed.
+End B.
